@@ -15,9 +15,10 @@ CONFIGS = "-,c,s,cs,sc"
 
 # which properties a differing item of the generated module concerns
 ITEM_PROPS = {
-    "MAXSIZE": ["C02", "C03", "C07", "C13"],
-    "UNINIT": ["C02", "C03", "C13"],
-    "RECORD": ["C02", "C03", "C07", "C13", "C14"],
+    # the capacity and the alignment of the buffer structs are hypotheses (layout_ok) of C04..C07 and C16
+    "MAXSIZE": ["C02", "C03", "C04", "C05", "C06", "C07", "C13", "C16"],
+    "UNINIT": ["C02", "C03", "C04", "C05", "C06", "C07", "C13", "C16"],
+    "RECORD": ["C02", "C03", "C04", "C05", "C06", "C07", "C13", "C14", "C16"],
     "ALIAS": ["C03", "C13"],
     "STRUCT": ["C04", "C05", "C11", "C13"],
     "SAFEFROM": ["C04", "C05", "C11", "C13"],
